@@ -6,6 +6,7 @@ import (
 	"math"
 	"strings"
 
+	"xv/refxp"
 	"xv/run"
 )
 
@@ -18,6 +19,52 @@ var c06Numbers = []float64{
 }
 
 var c06SumTexts = []string{"1", "2.5", "-3", "0.5", " 4 ", "x", "", "1e2", "10", "-0.25"}
+
+// c06WideTexts: values whose sum depends on rounding (0.1+0.2+0.3), on
+// cancellation (1 + 1e16 - 1e16) and on overflow to infinity (310-digit numbers).
+var c06WideTexts = []string{"0.1", "0.2", "0.3", "1" + strings.Repeat("0", 309), "-1" + strings.Repeat("0", 309), "1", "10000000000000000", "-10000000000000000", "0.7"}
+
+// c06WideJudge: sum($x) must be A sum of the numbers of the nodes in IEEE 754
+// double arithmetic; the statement does not fix the order of the additions, so
+// the left-to-right sum of ANY ordering of the nodes is accepted.
+func c06WideJudge(e refExpr, vals []VarSpec, got, want Outcome) string {
+	if got.Panic != "" {
+		return "panic escaped: " + got.Panic
+	}
+	if IsPanicErr(got) {
+		return "internal 'xpath query panic' error"
+	}
+	if got.Err {
+		return "error for a node-set operand"
+	}
+	if got.Type != "number" {
+		return "result is not a number"
+	}
+	if SameValue(got, want, true) {
+		return ""
+	}
+	ok := false
+	for _, v := range vals {
+		if v.Type != "node-set" {
+			continue
+		}
+		permute(v.Nodes, func(p []string) {
+			s := 0.0
+			for _, path := range p {
+				var idx int
+				fmt.Sscanf(path, "/0/%d", &idx)
+				s += refxp.StringToNumber(c06WideTexts[idx])
+			}
+			if s == got.Num || (math.IsNaN(s) && math.IsNaN(got.Num)) {
+				ok = true
+			}
+		})
+	}
+	if ok {
+		return ""
+	}
+	return "is not the IEEE 754 sum of the numbers of the nodes in any order of addition"
+}
 
 func c06Judge(e refExpr, vals []VarSpec, got, want Outcome) string {
 	if got.Panic != "" {
@@ -48,7 +95,7 @@ func C06(c *run.Check) {
 		bin = append(bin, mustParse([]string{"$a " + op + " $b"})...)
 	}
 	un := mustParse([]string{"-$a", "floor($a)", "ceiling($a)", "round($a)", "--$a", "number($a)", "$a + 0", "0 - $a"})
-	c.Rule = fmt.Sprintf("%d boundary doubles (+-0, +-0.5, ties, 0.49999999999999994, 2^31, 2^53+-1, 2^63, 2^64, 1e21, max, min subnormal, NaN, +-Inf): ALL ordered pairs x {+,-,*,div,mod} and all values x {unary -, floor, ceiling, round} with operands as Number variables and as literals where expressible; sum()/count() over every node-set of size <=3 from a 10-text alphabet (fractions, negatives, padded, non-numeric); every arithmetic operator and rounding function with node-set operands in EVERY storage order (all permutations of every subset of size 2-3) and with reverse-axis paths as operands; results compared by bit pattern (NaN==NaN; sign of zero ignored for round) with Go float64 / math.Mod; non-trivial = distinct (operation, result)", len(c06Numbers))
+	c.Rule = fmt.Sprintf("%d boundary doubles (+-0, +-0.5, ties, 0.49999999999999994, 2^31, 2^53+-1, 2^63, 2^64, 1e21, max, min subnormal, NaN, +-Inf): ALL ordered pairs x {+,-,*,div,mod} and all values x {unary -, floor, ceiling, round} with operands as Number variables and as literals where expressible; sum()/count() over every node-set of size <=3 from a 10-text alphabet (fractions, negatives, padded, non-numeric); sum() over every sequence of <=4 distinct nodes from 9 texts whose sum depends on rounding (0.1, 0.2, 0.3, 0.7), cancellation (1, +-1e16) and overflow (310-digit numbers = +-Infinity), accepted if it is the IEEE sum in some order of addition; every arithmetic operator and rounding function with node-set operands in EVERY storage order (all permutations of every subset of size 2-3) and with reverse-axis paths as operands; results compared by bit pattern (NaN==NaN; sign of zero ignored for round) with Go float64 / math.Mod; non-trivial = distinct (operation, result)", len(c06Numbers))
 	r := &vrunner{c: c, kind: "C06", judge: c06Judge}
 	if run.Open("C06-round-negative-tie") {
 		r.known = func(e refExpr, vals []VarSpec, got, want Outcome) string {
@@ -163,6 +210,66 @@ func C06(c *run.Check) {
 			c.Distinct(e.Text)
 		}
 	}
+	// sums whose value depends on rounding, cancellation and overflow: every
+	// non-empty sequence of up to 4 distinct elements of c06WideTexts
+	{
+		dw := vdoc(c06WideTexts)
+		rw := &vrunner{c: c, kind: "C06w", judge: c06WideJudge}
+		sumE := mustParse([]string{"sum($x)"})[0]
+		var seqs []VarSpec
+		var rec func(cur []string)
+		rec = func(cur []string) {
+			if len(cur) > 0 {
+				seqs = append(seqs, setVar("x", append([]string{}, cur...)...))
+			}
+			if len(cur) == 4 {
+				return
+			}
+		next:
+			for i := range c06WideTexts {
+				pth := fmt.Sprintf("/0/%d", i)
+				for _, q := range cur {
+					if q == pth {
+						continue next
+					}
+				}
+				rec(append(cur, pth))
+			}
+		}
+		rec(nil)
+		ww := make([]*vworker, run.Workers())
+		run.ParallelW(len(seqs), func(w, i int) {
+			if !triage && c.Violations() > 0 {
+				return
+			}
+			if ww[w] == nil {
+				ww[w] = newVWorker(dw)
+			}
+			c.Evaluations.Add(1)
+			if rw.one(ww[w], "/", sumE, []VarSpec{seqs[i]}) {
+				c.Distinct("wide sum" + fmt.Sprint(seqs[i].Nodes))
+			}
+		})
+		c.Set("rounding_sensitive_sum_operands", len(seqs))
+		for _, e := range mustParse([]string{"sum(/r/e)", "sum(/r/e[position() <= 3])", "sum(/r/e[position() = 4 or position() = 6])", "sum(/r/e[position() > 5])", "sum(/r/e[position() = 4 or position() = 5])"}) {
+			c.Evaluations.Add(1)
+			if ww[0] == nil {
+				ww[0] = newVWorker(dw)
+			}
+			// path spellings: no variable to permute - judged against the sums of the selected texts
+			sel := map[string][]string{"sum(/r/e)": {"/0/0", "/0/1", "/0/2", "/0/3", "/0/4", "/0/5", "/0/6", "/0/7", "/0/8"}, "sum(/r/e[position() <= 3])": {"/0/0", "/0/1", "/0/2"}, "sum(/r/e[position() = 4 or position() = 6])": {"/0/3", "/0/5"}, "sum(/r/e[position() > 5])": {"/0/5", "/0/6", "/0/7", "/0/8"}, "sum(/r/e[position() = 4 or position() = 5])": {"/0/3", "/0/4"}}[e.Text]
+			if len(sel) > 5 {
+				// 9! orderings are not enumerated: the document-order sum or NaN/Inf classes decide
+				rw2 := &vrunner{c: c, kind: "C06", judge: c06Judge}
+				rw2.one(ww[0], "/", e, nil)
+				continue
+			}
+			rw3 := &vrunner{c: c, kind: "C06w", judge: func(e refExpr, _ []VarSpec, got, want Outcome) string {
+				return c06WideJudge(e, []VarSpec{setVar("x", sel...)}, got, want)
+			}}
+			rw3.one(ww[0], "/", e, nil)
+		}
+	}
 	// literals and path spellings
 	lits := mustParse([]string{"sum(/r/e)", "sum(/r/e[position()<=4])", "sum(/r/e[2])", "count(/r/e)", "sum(/r/none)", "7 mod 2", "-7 mod 2", "7 mod -2", "5.5 mod 2", "5 mod 0.3", "1 mod 0.5",
 		"0.5 mod 1", "round(0.5)", "round(2.5)", "round(-0.5)", "round(-0.2)", "round(0.49999999999999994)", "floor(-0.5)", "ceiling(-0.5)", "1 div 0", "-1 div 0", "0 div 0", "1 div -0", "-0 div 1",
@@ -186,6 +293,9 @@ func init() {
 	replayers["C06"] = func(raw json.RawMessage) string {
 		var vc vcase
 		json.Unmarshal(raw, &vc)
+		if vc.Kind == "C06w" {
+			return replayV(vc, true, c06WideJudge)
+		}
 		return replayV(vc, true, c06Judge)
 	}
 }
